@@ -401,6 +401,22 @@ class DHTCommunity(Community):
         node.last_ping_sent = time.time()
         return cache.future
 
+    def _pop_request_for(self, peer: Peer, msg_type: str, identifier: int) -> Request | None:
+        """
+        Pop the outstanding request with the given identifier, if this response comes from the node we asked.
+
+        A response is only credited to the node the request was sent to if it is signed with that node's key.
+        """
+        if not self.request_cache.has(msg_type, identifier):
+            self.logger.warning("Got %s-response with unknown identifier, dropping packet", msg_type)
+            return None
+        cache = cast("Request", self.request_cache.get(msg_type, identifier))
+        if cache.node.public_key.key_to_bin() != peer.public_key.key_to_bin():
+            self.logger.warning("Got %s-response from a different key than we sent the request to, dropping packet",
+                                msg_type)
+            return None
+        return cast("Request", self.request_cache.pop(msg_type, identifier))
+
     @lazy_wrapper_wd(PingRequestPayload)
     def on_ping_request(self, peer: Peer, payload: PingRequestPayload, data: bytes) -> None:
         """
@@ -419,12 +435,11 @@ class DHTCommunity(Community):
         """
         When receive a response to our ping, update the node's metrics.
         """
-        if not self.request_cache.has("ping", payload.identifier):
-            self.logger.warning("Got ping-response with unknown identifier, dropping packet")
+        cache = self._pop_request_for(peer, "ping", payload.identifier)
+        if cache is None:
             return
 
         self.logger.debug("Got ping-response from %s", peer.address)
-        cache = cast("Request", self.request_cache.pop("ping", payload.identifier))
         cache.on_complete()
         if not cache.future.done():
             cache.future.set_result(cache.node)
@@ -568,12 +583,11 @@ class DHTCommunity(Community):
         """
         We got confirmation of storage.
         """
-        if not self.request_cache.has("store", payload.identifier):
-            self.logger.warning("Got store-response with unknown identifier, dropping packet")
+        cache = self._pop_request_for(peer, "store", payload.identifier)
+        if cache is None:
             return
 
         self.logger.debug("Got store-response from %s", peer.address)
-        cache = cast("Request", self.request_cache.pop("store", payload.identifier))
         cache.on_complete()
         if not cache.future.done():
             cache.future.set_result(cache.node)
@@ -729,12 +743,11 @@ class DHTCommunity(Community):
         """
         We got a response for our find requests.
         """
-        if not self.request_cache.has("find", payload.identifier):
-            self.logger.warning("Got find-response with unknown identifier, dropping packet")
+        cache = self._pop_request_for(peer, "find", payload.identifier)
+        if cache is None:
             return
 
         self.logger.debug("Got find-response from %s", peer.address)
-        cache = cast("Request", self.request_cache.pop("find", payload.identifier))
         cache.on_complete()
 
         self.tokens[cache.node.id] = (time.time(), payload.token)
